@@ -8,10 +8,11 @@ import Cellml.Units.WorklistComplete
     The body of the `while` loop of `Parser._add_units` (`Gen.UnitDefs.addUnitsBody`) calls
     `self.model.units.add_unit(name, definition)`; the spec of that group binds the call to the leaf
     `PUnitDefs.addUnitLeaf`. `UnitStore.add_unit` itself is translated in the group `Units` (`Gen.Units.addUnit`) and tied
-    to the same hand model by `addUnit_tie`, with the domain hypotheses `hdef`, `hsup`, `hz`. This file composes the two:
-    whenever every unit the definition mentions is in the registry (what the work list has checked before it calls
-    `add_unit`: `units_found`, `Units.refsResolve`), `hz` holds, and the leaf returns exactly what the generated method
-    does to the store object. What remains of the domain is `hdef` / `hsup` — where the hand model abstains
+    to the same hand model by `addUnit_tie`, with the domain hypotheses `hdef`, `hsup`. This file composes the two:
+    the leaf returns exactly what the generated method does to the store object (since the repair of the hand model,
+    notes/reports/MODELFIX_Units.md, with no condition on the references: an unknown name is an `UndefinedUnitError` of
+    the leaf and of the generated method alike, whatever its exponent). What remains of the domain is `hdef` / `hsup` —
+    where the hand model abstains
     (`unsupported`: a multiplier ≤ 0; `dimensionless` mixed with dimensional units) and the leaf, which is defined by
     the hand model, abstains with it. -/
 
@@ -20,20 +21,12 @@ set_option linter.unusedSimpArgs false
 namespace Cellml.Tie.PGenB
 open Units PMap Cellml.Gen Cellml.Tie Cellml.Tie.PUnits
 
-/-- inside the work list `hz` of `addUnit_tie` is implied: all references resolve ⇒ no unknown name, with or
-    without normalisation -/
-theorem hz_of_refsResolve (reg : Registry) (st : Store) (d : UDef) (k : Scale) (c : Container) (md : Bool)
-    (hdef : defMeaning st.id d.elems = .ok (k, c, md)) (hres : refsResolve reg st d = true) :
-    allKnown reg c = allKnown reg (norm c) := by
-  have hk : allKnown reg c = true :=
-    defMeaning_allKnown d.elems k c md hdef (fun e he => List.all_eq_true.mp hres e he)
-  rw [hk, allKnown_norm hk]
-
 theorem addUnit_not_unsupported (reg : Registry) (st : Store) (name : String) (elems : List UnitElem) (k : Scale)
     (c : Container) (md : Bool) (hdef : defMeaning st.id elems = .ok (k, c, md))
     (hsup : ¬ (norm c ≠ [] ∧ md = true)) (e : AddErr) (h : Units.addUnit reg st name elems = .error e) :
     PUnitDefs.addErrClass e = PUnits.addErrClass e := by
-  unfold Units.addUnit at h
+  rw [addUnit_noOffset (defMeaning_ok_offset hdef)] at h
+  unfold Units.addUnitWith at h
   rw [hdef] at h
   simp only at h
   split at h
@@ -51,36 +44,27 @@ theorem addUnit_not_unsupported (reg : Registry) (st : Store) (name : String) (e
               exact absurd ⟨h5, h6⟩ hsup
             · cases h
 
+/-- the leaf of the generated work list is the hand model `Units.addUnit` (classes of `PUnitDefs.addErrClass`) -/
+theorem addUnitLeaf_model (reg : Registry) (st : Store) (d : UDef) (hoff : d.elems.any elemOffsetBad = false) :
+    PUnitDefs.addUnitLeaf (reg, st) d.name ⟨d.elems.map PUnitDefs.elemExpr⟩ =
+      errClass PUnitDefs.addErrClass (Units.addUnit reg st d.name d.elems) := by
+  have h5 : ((d.elems.map PUnitDefs.elemExpr).all
+      fun e => e.names.all fun n => allKnown reg (nameContainer (mangle st.id n))) = refsKnown reg st.id d.elems := by
+    simp [refsKnown, List.all_map, Function.comp_def, PUnitDefs.elemExpr_names]
+  unfold PUnitDefs.addUnitLeaf
+  simp only [h5]
+  rw [PUnitDefs.denAll_map _ _ hoff, PUnitDefs.addUnit_eq_with _ _ _ _ hoff]
+
 /-- **composition of the ties**: the leaf the generated work list calls = the generated `UnitStore.add_unit` run on
-    the store object, read back (`registry definitions, model store`) — same result, same exception class -/
+    the store object, read back (`registry definitions, model store`) — same result, same exception class; no
+    hypothesis on the references of the definition -/
 theorem addUnitLeaf_generated (reg : Registry) (st : Store) (d : UDef)
     (hoff : d.elems.any elemOffsetBad = false) (k : Scale) (c : Container) (md : Bool)
-    (hdef : defMeaning st.id d.elems = .ok (k, c, md)) (hsup : ¬ (norm c ≠ [] ∧ md = true))
-    (hres : refsResolve reg st d = true) :
+    (hdef : defMeaning st.id d.elems = .ok (k, c, md)) (hsup : ¬ (norm c ≠ [] ∧ md = true)) :
     PUnitDefs.addUnitLeaf (reg, st) d.name ⟨d.elems.map PUnitDefs.elemExpr⟩ =
       (Gen.Units.addUnit (storeObj st reg []) d.name ⟨d.elems, id⟩).map
         (fun r => (r.1._registry.defs, storeOfObj r.1)) := by
-  rw [addUnit_tie st reg [] d.name d.elems k c md hdef hsup (hz_of_refsResolve reg st d k c md hdef hres)]
-  have h5 : ((d.elems.map PUnitDefs.elemExpr).all
-      fun e => e.names.all fun n => allKnown reg (nameContainer (mangle st.id n))) = refsResolve reg st d := by
-    simp [refsResolve, List.all_map, Function.comp_def, PUnitDefs.elemExpr_names]
-  have hleaf : PUnitDefs.addUnitLeaf (reg, st) d.name ⟨d.elems.map PUnitDefs.elemExpr⟩ =
-      errClass PUnitDefs.addErrClass (Units.addUnit reg st d.name d.elems) := by
-    unfold PUnitDefs.addUnitLeaf
-    simp only [h5, hres, Bool.not_true, Bool.false_eq_true, if_false]
-    rw [PUnitDefs.denAll_map _ _ hoff, ← PUnitDefs.addUnit_eq_with]
-    congr 1
-    unfold Units.addUnit
-    rw [hdef]
-    simp only
-    split
-    · rfl
-    · split
-      · rfl
-      · split
-        · rfl
-        · rfl
-  rw [hleaf]
+  rw [addUnit_tie st reg [] d.name d.elems k c md hdef hsup, addUnitLeaf_model reg st d hoff]
   cases hr : Units.addUnit reg st d.name d.elems with
   | ok r =>
     obtain ⟨reg', st'⟩ := r
@@ -90,16 +74,16 @@ theorem addUnitLeaf_generated (reg : Registry) (st : Store) (d : UDef)
 
 /-- **the property's own hypothesis implies the tie domain**: whenever an `add_now` step of the work list SUCCEEDS
     (as every step does under the hypothesis `… = .ok (reg, st)` of `worklist_sound_partial` / `worklist_perm_partial`),
-    the call `add_unit(name, definition)` it makes is inside the domain of `addUnit_tie` (`hdef`, `hsup`, `hz` all hold),
+    the call `add_unit(name, definition)` it makes is inside the domain of `addUnit_tie` (`hdef`, `hsup` both hold),
     and the new unit store is exactly what the GENERATED `UnitStore.add_unit` produces from the store object -/
 theorem addNow_ok_generated (reg : Registry) (st : Store) (d : UDef) (r : Registry × Store)
     (h : addNow reg st d = .ok r) :
     (Gen.Units.addUnit (storeObj st reg []) d.name ⟨d.elems, id⟩).map
       (fun o => (o.1._registry.defs, storeOfObj o.1)) = .ok r := by
-  obtain ⟨hoff, _, _, hres, hadd⟩ := addNow_ok h
+  obtain ⟨hoff, _, _, _, hadd⟩ := addNow_ok h
   obtain ⟨k, c, md, hdef, _, _, _, _, hmd, _⟩ := Units.addUnit_ok hadd
   have hsup : ¬ (norm c ≠ [] ∧ md = true) := fun hh => hh.1 (hmd hh.2)
-  rw [← addUnitLeaf_generated reg st d hoff k c md hdef hsup hres]
+  rw [← addUnitLeaf_generated reg st d hoff k c md hdef hsup]
   have hn := PUnitDefs.addNow_tie reg st d
   rw [h, PUnitDefs.makeDef_tie, hoff] at hn
   have hdup : PUnitDefs.isDefined (reg, st) d.name = false := by
